@@ -586,7 +586,7 @@ func policerMain() {
 		Net: netT{K: 2, NN: [][]int{{1, 2}}, Rep: []int{1}, Ecr: [][2]int{}}})
 	nRandom, maxRemote := 2600, 2
 	if thorough() {
-		nRandom, maxRemote = 60000, 3
+		nRandom, maxRemote = 15000, 3
 	}
 	if v, err := strconv.Atoi(os.Getenv("VERIF_PLACE_N")); err == nil {
 		nRandom = v
